@@ -124,4 +124,34 @@ TEXTS.update({
         "technique": "Lean 4 proof (shape invariant of the monitor state machine) + behavioural conformance under testing/synctest",
     },
 })
+TEXTS["_engines"].append({"name": "ctrl", "path": "harness/conc/ctrl_test.go", "serves_properties": ["C03", "C04", "C13", "C14"],
+    "kind_free_text": "behavioural conformance under testing/synctest: the real controller against a fake API server with watch/list faults and virtual time (kdriver ctrl)"})
+TEXTS.update({
+    "C03": {
+        "text": "Lean theorems over the controller world (server history, cache, watch pipeline positions; list snapshots may reflect ANY earlier history index, the "
+                "watch may end, reconnect, lag or never deliver), for every reachable state: the per-key cut invariant; each list is applied exactly (newest of cached/listed, "
+                "filter-checked, never regressing) and its events replay; a list of the server's current state makes the cache equal the accepted server state from ANY reachable "
+                "state (convergence after one relist without any help from the watch); every cached object occurred in the history; a list result is always accepted while running.",
+        "design_ref": "DESIGN.md §7 C03",
+        "note": "Trusted: Lean kernel; Ctrl model and its environment assumptions (monotone resource versions, watch replays in order, snapshot lists); the real-time bound "
+                "'one further relist' is exhibited in virtual time by the engine; buffer overflow is outside the position model (granted by the property as lost events, recovered by the relist theorem).",
+        "technique": "Lean 4 proof (inductive invariant over all label sequences incl. slow lists, monotone-version argument) + behavioural conformance with fault injection under testing/synctest",
+    },
+    "C04": {
+        "text": "Lean theorems on the controller world: pipeline positions stay ordered; a reconnect resumes at the watcher's resume point (nothing received is discarded, nothing later is "
+                "skipped); watch-side steps never touch the cache; whenever every server change has been applied the cache equals the accepted server state (continuity, no relist "
+                "needed, for every fault schedule and slow list); while something is outstanding some pipeline step is enabled and each step decreases the lag measure.",
+        "design_ref": "DESIGN.md §7 C04",
+        "note": "Trusted as for C03. The bound 'within the reconnect delay' is exhibited in virtual time. Buffer overflows of the watch buffers are excluded (C10).",
+        "technique": "Lean 4 proof (cut invariant + progress/variant on the watch pipeline) + behavioural conformance with reconnect faults under testing/synctest",
+    },
+    "C14": {
+        "text": "Decision logic of the controller loop stated outright in Lean: a list failure of either kind at any point stops the controller with that cause, leaves Ready as it was and "
+                "tears the watch down; once stopped nothing is applied any more (fail-stop) and a failed first list never makes it ready; no watch-side step changes the run state; "
+                "a deliberate Close records no failure. Tie: every failure kind at the k-th list, and every watch failure, on the real controller with a subscriber attached.",
+        "design_ref": "DESIGN.md §7 C14",
+        "note": "Trusted: Lean kernel; the model's classification of list results (error / not a list of API objects) mirrors lister.executeList, listResourceVersion and extractList by hand.",
+        "technique": "Lean 4 proof (decision-logic theorems on the controller model) + fault enumeration on the real controller under testing/synctest",
+    },
+})
 NOT_BUILT = {}
